@@ -3,6 +3,7 @@
 P=$1; shift
 cd /repo && git apply "$P" || { echo "patch does not apply"; exit 2; }
 cd /verif
+mkdir -p /var/tmp/tryseed.$$ && cp known_findings.jsonl properties.jsonl /var/tmp/tryseed.$$/
 for id in "$@"; do bin/fxcheck -prop $id -verif /var/tmp/tryseed.$$ 2>&1 | grep -E "^(REPORT|SUMMARY|KNOWN|LOAD)" | cut -c1-400; done
 mkdir -p /var/tmp/tryseed.$$ ; rm -rf /var/tmp/tryseed.$$
 git -C /repo checkout -- . ; git -C /repo status --short | head -3
